@@ -11,6 +11,7 @@ from ..flow import BaseCount, TellDerived
 from ..model import FuncInfo, Repo
 from ..report import Report
 from ..util import AnalysisError, always_raises, call_name, chain, names_loaded, norm, parent_map, short, single_defs, walk_body
+from .compiled import shape_of
 from .c02 import node_calls
 
 WAIVERS = {
@@ -409,6 +410,7 @@ def _unguarded_class_alignment_seeks(fn: ast.AST) -> list[ast.Call]:
     return out
 
 
+@shape_of("struct_rw", "compiled")
 def zero_alignment_rule(repo: Repo, rep: Report, rid: str) -> None:
     rep.rule(rid, "a reader never moves the stream by a mask built from an alignment that can be 0: the class alignment of a structure without fields "
                   "is 0 (the calculators start from 0 and take the maximum over the fields), so 'seek(-tell() & (cls.alignment - 1), SEEK_CUR)' must be "
@@ -450,6 +452,7 @@ def zero_alignment_rule(repo: Repo, rep: Report, rid: str) -> None:
     rep.floor(rid, "class-alignment seek sites", n, 2)
 
 
+@shape_of("struct_rw", "compiled")
 def absolute_padding_rule(repo: Repo, rep: Report, rid: str) -> None:
     rep.rule(rid, "alignment padding in the generated reader is computed from the absolute stream position, as the interpreted reader and the writer "
                   "compute it: every 'stream.seek(-X & (A - 1), SEEK_CUR)' template has X == stream.tell()")
